@@ -1,19 +1,19 @@
 #!/bin/sh
-# seed_confirm.sh <worktree> <seeded-id>
+# seed_confirm.sh <worktree> <seeded-id> [build-type]
 # Confirms a candidate seeded change in its scratch worktree (the 23 tests pass with it; the demonstration fails with it and
 # passes without it) and copies patch + demonstration (no build output) to /verif/seeded/<id>/.
 set -u
-WT=$1; ID=$2
+WT=$1; ID=$2; BT=${3:-RelWithDebInfo}
 V=$(cd "$(dirname "$0")/.." && pwd)
 cd "$WT" || exit 2
 [ -f demo/patch.diff ] || { echo "no demo/patch.diff"; exit 2; }
 git diff --quiet -- src include && { echo "worktree has no change applied"; exit 2; }
-mkdir -p _b && (cd _b && cmake -G Ninja .. -DCMAKE_BUILD_TYPE=Debug >/dev/null 2>&1 && ninja >/dev/null 2>&1) || { echo "BUILD FAILED with change"; exit 1; }
+mkdir -p _b && (cd _b && cmake -G Ninja .. -DCMAKE_BUILD_TYPE=$BT >/dev/null 2>&1 && ninja >/dev/null 2>&1) || { echo "BUILD FAILED with change"; exit 1; }
 T=$(cd _b && ctest -j8 --timeout 900 2>&1 | grep "tests passed")
 echo "ctest with change: $T"
-sh demo/run.sh >/tmp/seed_with.log 2>&1; W=$?
+timeout 1200 sh demo/run.sh >/tmp/seed_with_$ID.log 2>&1; W=$?
 git apply -R demo/patch.diff || exit 2
-sh demo/run.sh >/tmp/seed_without.log 2>&1; WO=$?
+timeout 1200 sh demo/run.sh >/tmp/seed_without_$ID.log 2>&1; WO=$?
 git apply demo/patch.diff
 echo "demo with change: exit $W ; without: exit $WO"
 case "$T" in "100% tests passed"*) ;; *) echo "NOT CONFIRMED (tests)"; exit 1;; esac
@@ -24,5 +24,6 @@ for f in demo/*; do
   case "$f" in *.o|*.a|demo/demo|*.log|*.bin) continue;; esac
   [ "$(stat -c %s "$f")" -lt 200000 ] && cp "$f" "$D/"
 done
-echo "CONFIRMED; files in $D: $(ls "$D" | tr '\n' ' ')"
+rm -f /tmp/seed_with_$ID.log /tmp/seed_without_$ID.log
+echo "CONFIRMED $ID; files in $D: $(ls "$D" | tr '\n' ' ')"
 echo "ran: ctest ($T); demo/run.sh with change exit $W, without exit $WO"
